@@ -26,8 +26,26 @@ from .api import is_helper
 from .poly import Rat, as_rat, sqrt_of, func_atom, atom_info, split_content, _frac_gcd, p_content, single_atom, mono_items
 
 
+class IRat(Rat):
+    """a constant of integer *type* (an int literal, an item of range() / arange of ints, sums and products of such).
+    Arithmetic in Rat returns plain Rat: the type is kept only where the evaluator re-attaches it, so losing it is the
+    conservative direction (an array is treated as integer-typed only when every item provably is)."""
+    __slots__ = ()
+
+
+def iconst(i):
+    r = Rat.const(i)
+    return IRat(r.num, r.den, _reduced=True)
+
+
+def as_int_typed(x):
+    return iconst(int(x.const_value())) if isinstance(x, Rat) and x.is_const() and Fraction(x.const_value()).denominator == 1 else x
+
+
 class Arr:
     """fixed-shape array of values (nested python lists, mutable)"""
+
+    int_dtype = False          # every item is an integer-typed constant and no dtype was given: stores truncate
 
     inherits_dtype = False     # created by array()/asarray() of caller data without a dtype: integer input stays integer
 
@@ -46,7 +64,10 @@ class Arr:
     def copy(self):
         def cp(d):
             return [cp(x) for x in d] if isinstance(d, list) else d
-        return Arr(cp(self.data))
+        r = Arr(cp(self.data))
+        if self.int_dtype:
+            r.int_dtype = True
+        return r
 
     def flat(self):
         out = []
@@ -195,12 +216,14 @@ def materialise(v):
                 if m is not None:
                     return m.data
                 return scalar(d)
+            if isinstance(d, bool):
+                return d          # a truth value (mask entry); counted as 0 / 1 by sums
             return scalar(d)
         return Arr(conv(v))
     return None
 
 
-TAGS = ("npfunc", "function", "builtin", "import", "closure", "method", "module", "class", "boundmethod", "pyfunc", "regex",
+TAGS = ("npfunc", "function", "builtin", "import", "closure", "method", "module", "class", "boundmethod", "pyfunc", "regex", "rematch",
         "ntclass", "type", "typeobj")
 
 
@@ -703,6 +726,30 @@ class Evaluator:
                 base[idx[0]] = val
                 return
             if isinstance(base, Arr):
+                if base.int_dtype:
+                    # an array built from integer-typed items only: what is stored is converted to its integer type
+                    def trunc_(d_):
+                        if isinstance(d_, Arr):
+                            return Arr(trunc_(d_.data))
+                        if isinstance(d_, (list, tuple)):
+                            return [trunc_(e_) for e_ in d_]
+                        if isinstance(d_, IRat) or isinstance(d_, bool):
+                            return d_
+                        if isinstance(d_, Opaque):
+                            m_ = materialise(d_)
+                            if m_ is None:
+                                raise AnalysisError("E3: store of an array of unknown shape into an integer array (line %d)" % target.lineno)
+                            return Arr(trunc_(m_.data))
+                        x_ = scalar(d_)
+                        if x_.is_const():
+                            import math as _m
+                            return iconst(_m.trunc(x_.const_value()))
+                        rec_ = ("int-store", getattr(self, "current_fn", "?"), target.lineno,
+                                "`%s = ...` stores a real value into an array of integer type: it is truncated" % unparse(target))
+                        if rec_ not in self.hazards:
+                            self.hazards.append(rec_)
+                        return self.apply_unary("fix", x_, target)
+                    val = trunc_(val)
                 if base.inherits_dtype:
                     rec = ("dtype", getattr(self, "current_fn", "?"), target.lineno,
                            "in-place store `%s = ...` into an array created from the caller's data without dtype=float: "
@@ -951,7 +998,9 @@ class Evaluator:
         v = node.value
         if isinstance(v, bool) or v is None or isinstance(v, str):
             return v
-        if isinstance(v, (int, float)):
+        if isinstance(v, int):
+            return iconst(v)
+        if isinstance(v, float):
             return as_rat(v)
         raise AnalysisError("E3: constant %r" % (v,))
 
@@ -1017,7 +1066,7 @@ class Evaluator:
     def e_UnaryOp(self, node, env):
         v = self.eval(node.operand, env)
         if isinstance(node.op, ast.USub):
-            return self.binop(ast.Mult(), Rat.const(-1), v, node)
+            return self.binop(ast.Mult(), iconst(-1) if isinstance(v, IRat) else Rat.const(-1), v, node)
         if isinstance(node.op, ast.UAdd):
             return v
         if isinstance(node.op, ast.Not):
@@ -1073,6 +1122,8 @@ class Evaluator:
 
     def scalar_op(self, op, x, y, node):
         try:
+            if isinstance(x, IRat) and isinstance(y, IRat) and isinstance(op, (ast.Add, ast.Sub, ast.Mult)):
+                return as_int_typed(x + y if isinstance(op, ast.Add) else x - y if isinstance(op, ast.Sub) else x * y)
             if isinstance(op, ast.Add):
                 return x + y
             if isinstance(op, ast.Sub):
@@ -1450,6 +1501,7 @@ class Evaluator:
                 kwargs.update(v_)
             else:
                 kwargs[k.arg] = v_
+        self._call_env = env          # (the float shadow of a truncating conversion folds its argument a second time)
         if isinstance(f, tuple) and f:
             kind = f[0]
             if kind == "function":
@@ -1640,7 +1692,7 @@ class Evaluator:
             ints = [const_int(a) for a in args]
             if any(i is None for i in ints):
                 raise AnalysisError("E3: range over a non-constant (line %d)" % node.lineno)
-            return [Rat.const(i) for i in range(*ints)]
+            return [iconst(i) for i in range(*ints)]
         if name == "isinstance" and len(args) == 2:
             is_type = lambda t_: isinstance(t_, tuple) and len(t_) == 2 and t_[0] in ("builtin", "type") and isinstance(t_[1], str)
             types = (args[1],) if is_type(args[1]) else (args[1] if isinstance(args[1], tuple) else (args[1],))
@@ -1672,6 +1724,23 @@ class Evaluator:
             raise AnalysisError("E3: len of unknown (line %d)" % node.lineno)
         if name == "abs":
             return self.np_call("abs", args, kwargs, node)
+        if name == "round" and len(args) in (1, 2) and not kwargs:
+            nd = const_int(args[1]) if len(args) == 2 else 0
+            x = scalar(args[0]) if isinstance(args[0], (Rat, int, float, Fraction)) and not isinstance(args[0], bool) else None
+            if x is None or nd is None:
+                raise AnalysisError("E3: round() of something else than a number (line %d)" % node.lineno)
+            if not x.is_const():
+                if nd == 0:
+                    return self.apply_unary("round", x, node)
+                raise AnalysisError("E3: round(x, %d) of a non-constant (line %d)" % (nd, node.lineno))
+            c = Fraction(x.const_value())
+            q = Fraction(10) ** nd
+            lo = (c * q).__floor__()
+            rem = c * q - lo
+            # exact round-half-even; the code rounds the binary float, which agrees unless the value sits on a boundary
+            if abs(rem - Fraction(1, 2)) < Fraction(1, 10 ** 9):
+                raise AnalysisError("E3: round() of a value on a rounding boundary: binary and exact arithmetic may differ (line %d)" % node.lineno)
+            return Rat.const(Fraction(lo + (1 if rem > Fraction(1, 2) else 0)) / q)
         if name in ("float", "int"):
             return args[0]
         if name in ("list", "tuple"):
@@ -1782,6 +1851,55 @@ class Evaluator:
                 and all(isinstance(x_, str) for x_ in args):
             import re as _re
             return _re.sub(base[1], args[0], args[1])
+        if isinstance(base, tuple) and len(base) == 2 and base[0] == "regex" and args and all(isinstance(x_, str) for x_ in args) and not kwargs:
+            # a compiled pattern applied to a constant string: folded with the standard library's own engine
+            import re as _re
+            if attr in ("match", "search", "fullmatch") and len(args) == 1:
+                m_ = getattr(_re.compile(base[1]), attr)(args[0])
+                return None if m_ is None else ("rematch", m_)
+            if attr == "findall" and len(args) == 1:
+                return [x_ if isinstance(x_, str) else list(x_) for x_ in _re.findall(base[1], args[0])]
+            if attr == "split" and len(args) == 1:
+                return _re.split(base[1], args[0])
+        if isinstance(base, tuple) and len(base) == 2 and base[0] == "npfunc" and base[1] in ("multiply", "add", "subtract", "divide", "true_divide") \
+                and attr == "outer" and len(args) == 2 and not kwargs:
+            # ufunc.outer(A, B)[i.., j..] = op(A[i..], B[j..])
+            op_ = {"multiply": ast.Mult, "add": ast.Add, "subtract": ast.Sub, "divide": ast.Div, "true_divide": ast.Div}[base[1]]()
+
+            def plain_(v_):
+                if isinstance(v_, Arr):
+                    return v_.data
+                if isinstance(v_, (list, tuple, Opaque)):
+                    m_ = materialise(v_)
+                    if m_ is None:
+                        raise AnalysisError("E3: %s.outer of an array of unknown shape (line %d)" % (base[1], node.lineno))
+                    return m_.data
+                return scalar(v_)
+            A_, B_ = plain_(args[0]), plain_(args[1])
+
+            def right_(x_, d_):
+                return [right_(x_, e_) for e_ in d_] if isinstance(d_, list) else self.scalar_op(op_, x_, scalar(d_), node)
+
+            def left_(d_):
+                return [left_(e_) for e_ in d_] if isinstance(d_, list) else right_(scalar(d_), B_)
+            r_ = left_(A_)
+            return Arr(r_) if isinstance(r_, list) else r_
+        if isinstance(base, tuple) and len(base) == 2 and base[0] == "rematch" and not kwargs:
+            ints = [const_int(a_) if not isinstance(a_, str) else a_ for a_ in args]
+            if any(i_ is None for i_ in ints):
+                raise AnalysisError("E3: match.%s with a non-constant group (line %d)" % (attr, node.lineno))
+            try:
+                if attr == "group":
+                    r_ = base[1].group(*ints)
+                    return list(r_) if isinstance(r_, tuple) else r_
+                if attr == "groups" and not args:
+                    return list(base[1].groups())
+                if attr in ("start", "end") and len(args) <= 1:
+                    return Rat.const(getattr(base[1], attr)(*ints))
+                if attr == "span" and len(args) <= 1:
+                    return tuple(Rat.const(x_) for x_ in base[1].span(*ints))
+            except (IndexError, TypeError) as e_:
+                raise AnalysisError("E3: match.%s: %s (line %d)" % (attr, e_, node.lineno))
         if attr == "dot" and len(args) == 1:
             return self.np_dot(base, args[0], node)
         if attr == "get" and isinstance(base, dict) and 1 <= len(args) <= 2:
@@ -1827,7 +1945,7 @@ class Evaluator:
 
             def red(d, depth):
                 if not isinstance(d, list):
-                    return scalar(d)
+                    return Rat.const(int(d)) if isinstance(d, bool) else scalar(d)
                 parts = [red(x, depth + 1) for x in d]
                 if depth in axes:
                     def add(u, v):
@@ -2135,6 +2253,8 @@ class Evaluator:
                         return all(from_caller(x) for x in d)
                     return isinstance(d, Opaque) or (isinstance(d, Rat) and single_atom(d) is not None and "[" in single_atom(d) and "(" not in single_atom(d))
                 m.inherits_dtype = from_caller(v)
+                leaves = m.flat()
+                m.int_dtype = bool(leaves) and all(isinstance(x_, IRat) for x_ in leaves)
             return m
         if name == "zeros":
             shp = args[0]
@@ -2169,7 +2289,7 @@ class Evaluator:
                 return Opaque("sum(%s)" % vkey(v))
             tot = Rat.const(0)
             for x in A.flat():
-                tot = tot + scalar(x)
+                tot = tot + (Rat.const(int(x)) if isinstance(x, bool) else scalar(x))
             return tot
         if name == "cross" and len(args) == 2:
             A = args[0] if isinstance(args[0], Arr) else materialise(args[0])
@@ -2240,6 +2360,35 @@ class Evaluator:
             if A is not None and len(A.shape) == 2 and k is not None:
                 keep = (lambda i, j: j - i <= k) if name == "tril" else (lambda i, j: j - i >= k)
                 return Arr([[A.data[i][j] if keep(i, j) else Rat.const(0) for j in range(A.shape[1])] for i in range(A.shape[0])])
+        if name == "where" and len(args) == 3 and not kwargs:
+            # element-wise selection on decided truth values (the comparison that produced them went through the policies)
+            def plain(v):
+                if isinstance(v, Arr):
+                    return v.data
+                if isinstance(v, Opaque):
+                    m = materialise(v)
+                    return m.data if m is not None else v
+                return v
+            c_, x_, y_ = plain(args[0]), plain(args[1]), plain(args[2])
+
+            def sel(c, x, y):
+                if isinstance(c, (list, tuple)):
+                    for other in (x, y):
+                        if isinstance(other, (list, tuple)) and len(other) != len(c):
+                            raise AnalysisError("E3: where() of incompatible shapes (line %d)" % node.lineno)
+                    return [sel(ci, x[i] if isinstance(x, (list, tuple)) else x, y[i] if isinstance(y, (list, tuple)) else y) for i, ci in enumerate(c)]
+                if isinstance(c, Rat) and c.is_const():
+                    c = c.const_value() != 0
+                if not isinstance(c, bool):
+                    raise Undecided("E3: where() on a condition that is not decided (line %d)" % node.lineno)
+                pick = x if c else y
+                if isinstance(pick, (list, tuple)):
+                    return [p if isinstance(p, (list, tuple)) else scalar(p) for p in pick]
+                if isinstance(pick, Opaque):
+                    raise AnalysisError("E3: where() selecting from an array of unknown shape (line %d)" % node.lineno)
+                return scalar(pick)
+            r_ = sel(c_, x_, y_)
+            return Arr(r_) if isinstance(r_, list) else r_
         if name == "sign" and len(args) == 1:
             v = args[0]
             A = v if isinstance(v, Arr) else (materialise(v) if isinstance(v, (list, tuple, Opaque)) else None)
@@ -2352,8 +2501,11 @@ class Evaluator:
                         step = len(vals) // ds[0] if ds[0] else 0
                         return [build_(vals[i_ * step:(i_ + 1) * step], ds[1:]) for i_ in range(ds[0])]
                     return Arr(build_(flat_, dims))
-        if name == "arange" and len(args) == 1 and not kwargs and const_int(args[0]) is not None:
-            return Arr([Rat.const(i) for i in range(const_int(args[0]))])
+        if name == "arange" and 1 <= len(args) <= 3 and not kwargs and all(const_int(a_) is not None for a_ in args):
+            typed = all(isinstance(a_, IRat) for a_ in args)
+            r_ = Arr([iconst(i) if typed else Rat.const(i) for i in range(*[const_int(a_) for a_ in args])])
+            r_.int_dtype = typed
+            return r_
         if name == "empty" and len(args) >= 1:
             shp = args[0]
             dims = [const_int(x) for x in (shp if isinstance(shp, (list, tuple)) else [shp])]
